@@ -199,7 +199,7 @@ def cross_collisions(exprs_by_value):
                 layer = e._layer()
             except Exception:
                 layer = {}
-            imported = type(e).__name__ in ("FromGraph",)
+            imported = type(e).__name__ in ("FromGraph", "_DelayedExpr")
             for k, t in layer.items():
                 if k in owner and owner[k][0] != e._name and not (imported or owner[k][3]) and not _same_task(owner[k][1], t):
                     problems.append(("key-collision", f"key {k!r} defined with different tasks by {owner[k][0]} and {e._name} (values {owner[k][2]} and {vid} of one program)"))
